@@ -109,3 +109,26 @@ def same(a, b, version):
                 return False
         return ea == eb
     return a == b
+
+
+def diff_path(a, b, version, depth=0):
+    """Dotted path of the first sub-field in which two codec values differ ('' when the values differ as
+    a whole or no finer position can be named)."""
+    if depth > 4:
+        return ''
+    if isinstance(a, (list, tuple)) and isinstance(b, (list, tuple)) and len(a) == len(b):
+        for i, (x, y) in enumerate(zip(a, b)):
+            if not same(x, y, version):
+                sub = diff_path(x, y, version, depth + 1)
+                return sub
+        return ''
+    if isinstance(a, primitives.Base) and type(a) is type(b):
+        for p in codec.init_params(type(a)):
+            try:
+                x, y = getattr(a, p), getattr(b, p)
+            except Exception:
+                continue
+            if not same(x, y, version):
+                sub = diff_path(x, y, version, depth + 1)
+                return p + ('.' + sub if sub else '')
+    return ''
